@@ -353,3 +353,56 @@ CONTRACTS.append(Contract(
                    "op": {"memory_id": ty.Str}, "module": {"signal_type": ty.Str}},
     properties=("C05",), min_obligations=1, no_replay=True))
 CONTRACTS += [mul_place, add_wire, value_name]
+
+# =================================================================================================
+# MemoryLowerer._extract_simple_comparison (which comparisons are inlined into the latch): a triple (name, op, k) is
+# returned only when it MEANS the comparison: ghost val(e) = the value of expression e; for a returned triple
+#       val(expr.left) op k  <=>  the comparison expr holds,   with name = the left identifier;
+# in particular a constant-first comparison is either declined or returned with the MIRRORED operator.
+# =================================================================================================
+from pyvc.ghost import ghost as _gh, isa as _isa  # noqa: E402
+
+MLQ = "dsl_compiler/src/lowering/memory_lowerer.py::MemoryLowerer."
+
+
+def _val(e):
+    return _gh(e, "val", ty.Int)
+
+
+_IDENT_T = ty.TObj("Expr", only=("IdentifierExpr",), ftypes=(("name", ty.Str),))
+_NUM_T = ty.TObj("Expr", only=("NumberLiteral",), ftypes=(("value", ty.Int),))
+_SIGLIT_T = ty.TObj("Expr", only=("SignalLiteral",), ftypes=(("value", _NUM_T), ("signal_type", ty.TConcrete(None))))
+
+
+def _esc_post(op):
+    def post(a, res):
+        if res is None:
+            return True  # declining is always sound (the non-inlined path is used)
+        e = a.expr
+        l, r = e.left, e.right
+        def v(x):
+            if _isa(x, "NumberLiteral"):
+                return x.value
+            if _isa(x, "SignalLiteral"):
+                return x.value.value
+            return _val(x)
+        truth = A.cmp(op, v(l), v(r))
+        name, rop, k = res[0], res[1], res[2]
+        if not isinstance(rop, str):
+            return False
+        # the triple is read as  <signal called name> rop k : that signal must be the identifier operand
+        ident = l if _isa(l, "IdentifierExpr") else (r if _isa(r, "IdentifierExpr") else None)
+        if ident is None:
+            return False
+        return And(name == ident.name, ops.Iff(A.cmp(rop, _val(ident), k), truth))
+    return post
+
+
+for _op in CMPS:
+    for _lt, _rt, _tag in ((_IDENT_T, _NUM_T, "x CMP 5"), (_NUM_T, _IDENT_T, "5 CMP x"), (_IDENT_T, _SIGLIT_T, "x CMP (5)"), (_IDENT_T, _IDENT_T, "x CMP y")):
+        CONTRACTS.append(Contract(
+            qualname=MLQ + "_extract_simple_comparison",
+            params={"self": ty.TObj("MemoryLowerer", only=("MemoryLowerer",)),
+                    "expr": ty.TObj("BinaryOp", only=("BinaryOp",), ftypes=(("op", ty.TConcrete(_op)), ("left", _lt), ("right", _rt)))},
+            ensures=[("a returned (name, op, k) means the comparison: name is the identifier operand and  name op k  <=>  left CMP right", _esc_post(_op))],
+            properties=("C05",), min_obligations=1, no_replay=True, note=f"{_tag} with CMP = {_op}"))
